@@ -859,6 +859,17 @@ func (g *c15Gen) schemas() (ss ast.Schemas) {
 		}
 	}()
 	ss = genSchemas(r, g.o)
+	if len(ss) > 1 && r.chance(3) {
+		// two schemas of the same package (cog consolidates them later; the passes see both)
+		from, to := ss[1].Package, ss[0].Package
+		ss[1].Package = to
+		objs := c15ObjList(ss[1])
+		for i := range objs {
+			objs[i].SelfRef.ReferredPkg = to
+		}
+		c15SetObjs(ss[1], objs, true)
+		_ = from
+	}
 	for _, s := range ss {
 		if r.chance(30) {
 			name := pick(r, []string{"Kind", "Const", "kind", "Version"})
